@@ -298,6 +298,10 @@ def fam_prim(c):
     L += c.struct(mod, "T_intro_ignore_mid", [F("0", "u32"), F("1", "u16", intro_ignore=True), F("2", "u8")], family="PRIM", tuple_struct=True)
     L += c.struct(mod, "S_intro_ignore_mid", [F("a", "u32"), F("b", "u16", intro_ignore=True), F("c", "u8")], family="PRIM")
     L += c.struct(mod, "T_intro_ignore_first", [F("0", "u32", intro_ignore=True), F("1", "u16"), F("2", "u8")], family="PRIM", tuple_struct=True)
+    # a struct whose only field has been removed is zero-sized in memory but has content in files of the older version; an array of
+    # it inside a padding-free struct must not make that struct bulk-copyable at the older version
+    L += c.struct(mod, "Z_removed_only", [F("a", "Removed<u32>", to=0, removed="Removed")], family="PRIM", cur_version=1)
+    L += c.struct(mod, "P_zst_array_C", [F("a", "u32"), F("z", "[Z_removed_only; 2]"), F("b", "u32")], repr="C", family="PRIM", cur_version=1)
     L += c.struct(mod, "Unit", [], family="PRIM")
     # nesting
     L += c.struct(mod, "N_packed_in_packed", [F("a", "P_u32_u16_u16_C"), F("b", "u64")], repr="C", family="NEST")
@@ -578,6 +582,27 @@ pub mod selftest_state {
 '''
 
 
+# a field that kept its stored type over two adjacent versions while its meaning changed (two conversions), then changed type:
+# each stored version must be read through ITS conversion (rule H3)
+CONV2 = '''
+pub mod conv2 {
+    #![allow(warnings)]
+    use savefile::prelude::*;
+    use savefile_derive::Savefile;
+    pub fn tenths_to_units(x: u16) -> u32 { (x as u32) / 10 }
+    pub fn hundredths_to_units(x: u16) -> u32 { (x as u32) / 100 }
+    #[derive(Savefile)]
+    pub struct Conv2 {
+        #[savefile_versions = "2.."]
+        #[savefile_versions_as = "0..0:tenths_to_units:u16"]
+        #[savefile_versions_as = "1..1:hundredths_to_units:u16"]
+        pub length: u32,
+        pub tail: u8,
+    }
+}
+'''
+
+
 def main():
     ap = argparse.ArgumentParser()
     ap.add_argument("--tier", default="quick")
@@ -590,7 +615,7 @@ def main():
     fam_evo(c, a.tier, rng)
     abi = os.path.join(os.path.dirname(os.path.abspath(__file__)), "abi_family.rs")
     src = "#![allow(warnings)]\n// GENERATED by /verif/corpus/gen.py -- compiled under the analysis driver only, never executed\n" + "\n".join(c.src) + "\n"
-    src += SELFTEST_STATE
+    src += SELFTEST_STATE + CONV2
     if os.path.exists(abi):
         src += open(abi).read()
         meta_abi = os.path.join(os.path.dirname(os.path.abspath(__file__)), "abi_family.json")
